@@ -160,6 +160,37 @@ def seeds_for(rng, target, n):
                 txt = txt + "\n---\n" + "rule zz\n  command = zz $in\nx = 1\n" + "\n---\n" + "include a.ninja\n"
                 txt = ("include a.ninja\nsubninja b.ninja\n" if rng.random() < 0.5 else "subninja a.ninja\n") + txt
             out.append(txt.encode("latin-1"))
+        # include graphs over the three files of the in-memory file set (build.ninja, a.ninja, b.ninja), cyclic or not, with
+        # one or several include/subninja lines per file (a cycle entered twice per level is 2^depth loads if only the depth is
+        # bounded), the file names spelt plainly, with './' and 'x/../', and through a variable that grows at every level
+        files = ["build.ninja", "a.ninja", "b.ninja"]
+        for k in range(max(8, n // 8)):
+            parts = []
+            for f in files:
+                L = ["rule r%d\n  command = c $in $out" % len(parts)] if rng.random() < 0.6 else []
+                if rng.random() < 0.3:
+                    L.append("p = ./$p")
+                for _ in range(rng.choice((0, 1, 1, 2, 2, 3))):
+                    tgt = rng.choice(files)
+                    sp = rng.choice((tgt, tgt, "./" + tgt, "x/../" + tgt, ".//" + tgt, "${p}" + tgt, "$p/" + tgt))
+                    L.append("%s %s" % (rng.choice(("include", "subninja")), sp))
+                if rng.random() < 0.5:
+                    L.append("build o%d: r%d i" % (len(parts), len(parts)) if L and L[0].startswith("rule") else "build o%d: phony" % len(parts))
+                parts.append("\n".join(L) + "\n")
+            out.append("\n---\n".join(parts).encode("latin-1"))
+        # ... and cycles for certain: build.ninja -> ... -> back, every file on the cycle naming its successor one to three times
+        for k in range(max(6, n // 16)):
+            cyc = ["build.ninja"] + rng.sample(["a.ninja", "b.ninja"], rng.randint(0, 2))
+            fan = rng.choice((1, 2, 2, 3))
+            texts = {f: "" for f in files}
+            for i, f in enumerate(cyc):
+                nxt = cyc[(i + 1) % len(cyc)]
+                if rng.random() < 0.3:
+                    texts[f] += "p = ./$p\n"
+                for _ in range(fan):
+                    sp = rng.choice((nxt, nxt, "./" + nxt, "x/../" + nxt, "${p}" + nxt))
+                    texts[f] += "%s %s\n" % (rng.choice(("include", "subninja")), sp)
+            out.append("\n---\n".join(texts[f] for f in files).encode("latin-1"))
     elif target in ("depfile", "depfileload"):
         for k in range(n):
             T = [bytes(rng.choice(b"ab/. \\#$:%") for _ in range(rng.randint(1, 9)))]
